@@ -12,9 +12,10 @@ open XotModel.Props
 #print axioms C14_pretty_where_newline
 #print axioms C14_pretty_where_mixed
 #print axioms C14_pretty_where_entry
-#print axioms C14_pretty_where_frozen
-#print axioms C14_pretty_where_partial
-#print axioms C14_pretty_where_false
-#print axioms C14_doctype_false
+#print axioms C14_pretty_where
+#print axioms C14_pretty_where_endtag
+#print axioms C14_doctype_element
+#print axioms C14_doctype_document
 #print axioms C14_pretty_where_tree
 #print axioms C14_pretty_where_tree_mixed
+#print axioms C14_pretty_where_tree_preserve
